@@ -32,6 +32,7 @@ ASSUMPTIONS = [
     "For a version-0 project whose migration is refused at the 1->2 step, the recorded version bump to 1 in signac.rc "
     "is accepted; everything else must be unchanged.",
 ]
+MANIFEST = {"technique": 'runtime monitoring: FS-call monitor (P-readonly on refused projects) + snapshot / content oracle around migrations, exhaustive over the configuration product', "engine": 'fs-call monitor (audit hook)'}
 TIME_CAP = {"quick": 60, "thorough": 600}
 
 NAMES = ["None", "plain", "my project, v2!", "name with 'quotes' # and = sign"]
